@@ -156,9 +156,13 @@ impl RouterHandler {
         ingress_id: IngressId,
         ingress_register: Arc<ingress::Register>,
     ) {
-        // Setup BMP streaming
+        // Setup BMP streaming. The stream runs our gate's machine while it
+        // waits for bytes. It borrows our gate rather than cloning it: a
+        // clone that nobody runs never takes its commands off its queue, and
+        // once that queue is full the unit's gate blocks for good while
+        // notifying its clones.
         let mut stream =
-            BmpStream::new(rx, self.gate.clone(), self.tracing_mode.clone());
+            BmpStream::new(rx, &self.gate, self.tracing_mode.clone());
 
         let mut router_id = hash32::FnvHasher::default();
         router_addr.hash(&mut router_id);
